@@ -35,6 +35,8 @@ type Request struct {
 	// Exe, when set, is an executable parsed earlier (and possibly resolved before): the request is
 	// ResolveExecutable on it, whatever Entry says. Used for parse-once / resolve-many histories.
 	Exe *ggql.Executable
+	// KeepVars hands the caller's own variable map to ggql (no private copy): callers re-use maps.
+	KeepVars bool
 }
 
 func copyVars(v map[string]interface{}) map[string]interface{} {
@@ -67,6 +69,9 @@ func Do(h *back.Harness, rq Request, plan model.FaultPlan) *Outcome {
 	h.Reset(plan)
 	out := &Outcome{}
 	vars := copyVars(rq.Vars)
+	if rq.KeepVars {
+		vars = rq.Vars
+	}
 	out.Panic, out.Stack = run.Protect(func() {
 		if rq.Exe != nil {
 			res, err := h.Root.ResolveExecutable(rq.Exe, rq.OpName, vars)
